@@ -161,6 +161,12 @@ class SReal(Sym):
 
 def int_from_cells(cells):
     cells = list(cells)
+    # leading constant-zero cells carry no information
+    i = 0
+    while i < len(cells) - 1 and not isinstance(cells[i], IRef) and B.norm(cells[i]) == 0 \
+            and isinstance(B.norm(cells[i]), int):
+        i += 1
+    cells = cells[i:]
     conc = 0
     for c in cells:
         if isinstance(c, IRef):
